@@ -679,6 +679,22 @@ class DontStopG:
 # the world
 # --------------------------------------------------------------------------------------
 
+REUSE = {}  # process-wide registry of component objects for worlds that ask for reuse_components
+
+
+def reused(desc, kind, spec, factory):
+    """The same stop-condition / mechanism OBJECT for every world of this process that asks for it
+    (users keep module-level DEFAULT_GSC / DEFAULT_SPROUT_COND objects and build several trees from them)."""
+    if not desc.get("reuse_components"):
+        return factory()
+    import json
+
+    key = (kind, json.dumps(spec, sort_keys=True, default=str))
+    if key not in REUSE:
+        REUSE[key] = factory()
+    return REUSE[key]
+
+
 DEFAULTS = dict(
     gens=1,
     obj="twofunnel",
@@ -762,16 +778,22 @@ class World:
                 p = rp
             else:
                 self.request_probes.append(None)
-            lp = ProbeLSC(make_lsc(lscs[i]), self, i)
+            lp = ProbeLSC(reused(d, f"lsc{i}", lscs[i], lambda: make_lsc(lscs[i])), self, i)
             self.lsc_probes.append(lp)
             if d.get("shared_problem"):
                 shared = p
             levels.append(make_level(e, p, lp, gens[i], self.box, d))
         self.level_configs = levels
-        sm = make_sprout(d["sprout"], self, self.box)
+        if d["sprout"]["kind"] == "scripted":
+            sm = make_sprout(d["sprout"], self, self.box)
+        else:
+            sm = reused(d, "sprout", [d["sprout"], d["box"]], lambda: make_sprout(d["sprout"], self, self.box))
         self.mechanism = sm
         self.L = d["sprout"].get("L", 2)
-        real = make_gsc(d["gsc"], self)
+        if (d["gsc"]["kind"] if isinstance(d["gsc"], dict) else d["gsc"]) == "precision":
+            real = make_gsc(d["gsc"], self)
+        else:
+            real = reused(d, "gsc", d["gsc"], lambda: make_gsc(d["gsc"], self))
         self.real_gsc = real
         self.gsc = ProbeGSC(Either(real, MetaepochLimit(d["Mh"])), self)
         opts = {"random_seed": d["seed"]}
